@@ -17,7 +17,7 @@ ID = "C12"
 LEVEL = "exploration"
 RULE = (
     "(1) Hypothesis draws unconstrained problems (QP+quartic, QP+softplus, Rosenbrock n<=8, |g(x0)|>=1 by construction; also with the objective multiplied by 10^2..10^10 and with the finite-difference step option set although the gradient is callable) and probe families (anisotropic sphere started so that the first trial's "
-    "decrease ratio is rho ~ 1e-3 or its slope ratio ~ 0.9, i.e. on the boundary of the sufficient-decrease / curvature tests), maxcor 1..8, 12 iterations, default line-search constants; the evaluation "
+    "decrease ratio is rho ~ 1e-3 or its slope ratio ~ 0.9, i.e. on the boundary of the sufficient-decrease / curvature tests), maxcor 1..8, 12 iterations, default line-search constants, the gradient returned as a fresh array or (1 in 4) in one reused work array; the evaluation "
     "points of minimize_lbfgsb and of scipy.optimize.minimize(method='L-BFGS-B') are compared index by index until the first documented deviation detected on SciPy's trace (trial step > 1 in "
     "iteration 0, an earlier trial lower than the accepted last one, |g0|<1) or the round-off regime (pg <= 1e-5*pg0, or the accumulated rounding drift between the two implementations has itself exceeded 1e-6). (2) convex box problems of C01 with gtol=1e-8: f_port - f_scipy <= 1e-8*(1+fmag). "
     "non-trivial = >=3 iterations compared with >=1 line search of >=2 trials and maxcor < iterations compared (memory wrapped), or a probe case; for (2): >=1 active bound at the solution; distinct = distinct spec"
@@ -83,7 +83,9 @@ def check_unconstrained(spec, stats=None):
     cfg = {"maxcor": m, "maxiter": 12, "maxfun": 15000, "maxls": 20, "ftol": 0.0, "gtol": 1e-10}
     if spec.get("eps") is not None:
         cfg["eps"] = spec["eps"]  # finite-difference step: documented to matter only when jac is None
-    tr = run_min(prob, cfg, bounds=None if spec.get("bounds_none", True) else "default")
+    # how the user's gradient hands over its result (a fresh array per call, or one preallocated work array) is
+    # invisible to Algorithm 778: the trajectory must be the same
+    tr = run_min(prob, cfg, bounds=None if spec.get("bounds_none", True) else "default", jac_style=spec.get("jac_style", "fresh"))
     if tr.exc is not None:
         raise tr.exc
     cut, why = first_deviation(prob, log, iters)
@@ -136,7 +138,7 @@ def check_unconstrained(spec, stats=None):
         stats.maxi("max_rel_dev_on_compared_evaluations", worst)
         probe = spec["problem"]["obj"]["family"] == "sphere_probe"
         stats.case(spec, (n_iter_cmp >= 3 and multi_trial and m < n_iter_cmp) or (probe and ncmp >= 3),
-                   [f"family={spec['problem']['obj']['family']}", f"cut={why or 'none'}", f"iters_compared={'0-2' if n_iter_cmp < 3 else '3-7' if n_iter_cmp < 8 else '8-12'}", f"multi_trial={multi_trial}"],
+                   [f"family={spec['problem']['obj']['family']}", f"cut={why or 'none'}", f"iters_compared={'0-2' if n_iter_cmp < 3 else '3-7' if n_iter_cmp < 8 else '8-12'}", f"multi_trial={multi_trial}", f"jac_returns={spec.get('jac_style', 'fresh')}"],
                    sample={"family": spec["problem"]["obj"]["family"], "n": prob.n, "maxcor": m, "evaluations_compared": ncmp, "iterations_compared": n_iter_cmp, "cut_reason": why,
                            "probe": spec.get("probe")})
 
@@ -169,13 +171,14 @@ def unconstrained_strategy(draw):
             probe = {"kind": "curvature", "r": r}
         x0 = (np.array(a) + r * u).tolist()
         p = {"obj": {"family": "sphere_probe", "n": n, "s": svec, "a": a}, "lb": [None] * n, "ub": [None] * n, "x0": x0}
-        return {"kind": "unc", "problem": p, "maxcor": m, "probe": probe}
+        return {"kind": "unc", "problem": p, "maxcor": m, "probe": probe, "jac_style": draw(st.sampled_from(["fresh", "fresh", "fresh", "buffer"]))}
     p = draw(problem_spec(families=(kind,), n_min=2 if kind == "rosenbrock" else 1, n_max=8, box_mode="free", kappa_max_exp=3.0))
     out = {"kind": "unc", "problem": p, "maxcor": m}
     k = draw(st.sampled_from([0, 0, 0, 2, 5, 8, 10]))
     if k:
         p["units"] = {"xs": 1.0, "fs": 10.0 ** k}  # the same problem with f in other units: curvature up to 1e13
     out["eps"] = draw(st.sampled_from([None, None, 1e-8, 1e-2]))
+    out["jac_style"] = draw(st.sampled_from(["fresh", "fresh", "fresh", "buffer"]))
     return out
 
 
